@@ -87,6 +87,10 @@ def edge_diffs(E, O, spec=None):
     for a, b, c, d, t in O.edges:
         if b == "Fallthrough" and a in E.optional_ft and (isinstance(t, str) or t in zero or t not in E.insns or E.insns[t]["bk"] != "c"):
             continue
+        if isinstance(t, tuple) and t in zero and (t not in E.insns or E.insns[t]["bk"] != "c"):
+            # a kept zero-sized block with nothing (or data) behind it is a position, not an
+            # instruction: an edge to it says as much as an edge to a proxy
+            t = "proxy"
         oo.add((a, b, c, d, _norm_t(t)))
     missing = ee - oo
     extra = oo - ee
@@ -158,6 +162,19 @@ def ft_cause(E, key, spec):
     B = src["uid"][1] if src["uid"][0] == "orig" else src.get("slot_blk")
     if B is None:
         return "unexplained"
+    if src["uid"][0] == "patch":
+        # a patch placed right after an earlier patch (same slot) that ends in jmp/ret behaves
+        # like a patch appended to a block without fallthrough
+        j = i
+        while j >= 0 and tl[j]["t"] == "ins" and tl[j]["uid"][:2] == src["uid"][:2] or (j >= 0 and tl[j]["t"] in ("lab", "cfi") and tl[j].get("own", tl[j].get("b")) == ("patch", src["uid"][1])):
+            j -= 1
+        while j >= 0 and (tl[j]["t"] != "ins" or tl[j].get("dead")):
+            if tl[j]["t"] == "blk":
+                break
+            j -= 1
+        if j >= 0 and tl[j]["t"] == "ins" and tl[j]["uid"][0] == "patch" and tl[j].get("slot_blk") == B \
+                and tl[j]["uid"][1] != src["uid"][1] and tl[j]["ins"][0] in ("jmp", "ret", "ijmp"):
+            return "K1"
     blocks = None
     for sct in spec["sections"]:
         names = [b["n"] for b in sct["blocks"]]
@@ -179,9 +196,13 @@ def ft_cause(E, key, spec):
     had_ft = b["k"] == "c" and b["i"] and isa_.falls(tuple(b["i"][-1])) and nxt is not None and nxt["k"] == "c"
     if not had_ft:
         return "K1"
-    dead = [t for t in tl if t["t"] == "ins" and t["uid"][0] == "orig" and t["uid"][1] == nxt["n"]]
-    if dead and all(t.get("dead") == "proxy" for t in dead):
-        return "K2"
+    for nb in blocks[bi + 1:]:
+        dead = [t for t in tl if t["t"] == "ins" and t["uid"][0] == "orig" and t["uid"][1] == nb["n"]]
+        anylive = any(t["t"] == "ins" and not t.get("dead") and (t["uid"][1] == nb["n"] if t["uid"][0] == "orig" else t.get("slot_blk") == nb["n"]) for t in tl)
+        if dead and all(t.get("dead") == "proxy" for t in dead):
+            return "K2"
+        if anylive or nb["k"] != "c":
+            break
     return "unexplained"
 
 
@@ -285,6 +306,12 @@ def ret_causes(E, spec):
 
 def _cause(E, x, spec):
     if x[1] == "Fallthrough":
+        rec = E.insns.get(x[0])
+        if rec is not None and rec["ins"][0] in ("jmp", "ret", "ijmp"):
+            # a fallthrough out of a jmp/ret: the terminator got buried; describe by the request pattern
+            if not hasattr(E, "_ret_causes"):
+                E._ret_causes = ret_causes(E, spec)
+            return "buried:" + "+".join(E._ret_causes)
         return ft_cause(E, x[0], spec)
     if not hasattr(E, "_ret_causes"):
         E._ret_causes = ret_causes(E, spec)
@@ -340,7 +367,9 @@ def symexpr_diffs(E, O):
         else:
             en = nm.get(e[0], e[0])
             if o[0] != en or o[1] != e[1]:
-                out.append(D("symexpr-wrong", at=list(key), expected=list(e), observed=list(o[:4])))
+                out.append(D("symexpr-wrong", at=list(key), expected=list(e), observed=list(o[:4]), r_what="symbol" if o[0] != en else "addend"))
+            elif len(e) > 3 and tuple(e[3]) != tuple(o[3]):
+                out.append(D("symexpr-attributes", at=list(key), expected=list(e[3]), observed=list(o[3])))
             elif o[2] != e[2]:
                 out.append(D("symexpr-size", at=list(key), expected=e[2], observed=o[2], r_obs="missing" if o[2] is None else "wrong"))
     return out
@@ -353,4 +382,19 @@ def ann_diffs(E, O):
         o = O.ann.get(key)
         if e != o:
             out.append(D("annotation-" + ("missing" if o is None else "extra" if e is None else "wrong"), at=list(key), expected=e, observed=o))
+    return out
+
+
+def functable_diffs(E, O):
+    out = []
+    if E.func_names != O.func_names:
+        for f in sorted(E.func_names - O.func_names):
+            out.append(D("function-vanished", r_func=f))
+        for f in sorted(O.func_names - E.func_names):
+            out.append(D("function-not-removed", r_func=f))
+    for f in sorted(E.func_names & O.func_names):
+        e = E.func_entries.get(f, set())
+        o = O.func_entries.get(f, set())
+        if e != o:
+            out.append(D("function-entries", r_func=f, expected=sorted(e), observed=sorted(o), r_rel="missing" if e - o and not o - e else "extra" if o - e and not e - o else "different"))
     return out
